@@ -320,7 +320,7 @@ theorem accLoop_length (bits : Nat) : ∀ (bytes : List Nat) (num n : Nat) (rest
     · simp only [hd, Bool.false_eq_true, if_false, Option.some.injEq, Prod.mk.injEq] at h
       rw [← h.2]; exact Nat.le_refl _
 
-theorem apply_length_le (w : View) (s : List Nat) : (w.apply s).length ≤ s.length := by
+theorem pi_apply_length_le (w : View) (s : List Nat) : (w.apply s).length ≤ s.length := by
   simp only [View.apply, List.length_take, List.length_drop]; omega
 
 /-! ### the unsigned instances -/
@@ -360,7 +360,7 @@ theorem parseU_eq (bits : Nat) (h4 : 4 ≤ bits) (fuel : Nat) (p : Parser)
         cases Utf8.strFrom (b :: rem) (rem.length + 1 - rest.length) with
         | error _ => simp
         | ok w =>
-          have hw := apply_length_le w (b :: rem)
+          have hw := pi_apply_length_le w (b :: rem)
           simp only [List.length_cons] at hw hoff
           have hmod : (rem.length + 1 - (w.apply (b :: rem)).length) % 2 ^ 32
               = rem.length + 1 - (w.apply (b :: rem)).length := Nat.mod_eq_of_lt (by omega)
@@ -512,7 +512,7 @@ theorem frame_val {T : Type} (y : Bool) (o : Nat) (s : List Nat) (hoff : o + s.l
   cases Utf8.strFrom s k with
   | error _ => rfl
   | ok w =>
-    have hw := apply_length_le w s
+    have hw := pi_apply_length_le w s
     have hmod : (s.length - (w.apply s).length) % 2 ^ 32 = s.length - (w.apply s).length :=
       Nat.mod_eq_of_lt (by omega)
     have hlt : o + (s.length - (w.apply s).length) < 2 ^ 32 := by omega
@@ -923,7 +923,7 @@ theorem parseInt_resOf_ok {T : Type} (f : Konst.Parser.Value → Option T) (p : 
 theorem natVal_some (n : Int) (h : 0 ≤ n) : ∃ t, natVal (.int n) = some t := ⟨n.toNat, by simp [natVal, h]⟩
 theorem intVal_some (n : Int) : ∃ t, intVal (.int n) = some t := ⟨n, rfl⟩
 
-theorem valid_lt_256 {s : List Nat} (hv : Konst.Spec.Utf8.Valid s) : ∀ b ∈ s, b < 256 := by
+theorem pi_valid_lt_256 {s : List Nat} (hv : Konst.Spec.Utf8.Valid s) : ∀ b ∈ s, b < 256 := by
   obtain ⟨cs, hs, rfl⟩ := hv
   exact Konst.Lemmas.Utf8.encs_lt_256 cs hs
 
@@ -934,7 +934,7 @@ theorem Parser.parse_u8_ok (fuel : Nat) (p : Parser)
     let r := Konst.Parser.parseInt (toParser p) false 8
     (∃ q v t, r = .ok q v ∧ natVal v = some t ∧ Extracted.Parser.parse_u8 fuel p = .ok (.ok (t, ofParser q))) ∨
     (∃ e, r = .err e ∧ Extracted.Parser.parse_u8 fuel p = .ok (.error (ofError e))) := by
-  rw [Parser.parse_u8_eq fuel p hoff (valid_lt_256 hv) hf]
+  rw [Parser.parse_u8_eq fuel p hoff (pi_valid_lt_256 hv) hf]
   exact parseInt_resOf_ok natVal p false 8 hv fun n hn => natVal_some n (hn rfl)
 
 theorem Parser.parse_i8_ok (fuel : Nat) (p : Parser)
@@ -943,7 +943,7 @@ theorem Parser.parse_i8_ok (fuel : Nat) (p : Parser)
     let r := Konst.Parser.parseInt (toParser p) true 8
     (∃ q v t, r = .ok q v ∧ intVal v = some t ∧ Extracted.Parser.parse_i8 fuel p = .ok (.ok (t, ofParser q))) ∨
     (∃ e, r = .err e ∧ Extracted.Parser.parse_i8 fuel p = .ok (.error (ofError e))) := by
-  rw [Parser.parse_i8_eq fuel p hoff (valid_lt_256 hv) hf]
+  rw [Parser.parse_i8_eq fuel p hoff (pi_valid_lt_256 hv) hf]
   exact parseInt_resOf_ok intVal p true 8 hv fun n _ => intVal_some n
 
 theorem Parser.parse_u32_ok (fuel : Nat) (p : Parser)
@@ -952,7 +952,7 @@ theorem Parser.parse_u32_ok (fuel : Nat) (p : Parser)
     let r := Konst.Parser.parseInt (toParser p) false 32
     (∃ q v t, r = .ok q v ∧ natVal v = some t ∧ Extracted.Parser.parse_u32 fuel p = .ok (.ok (t, ofParser q))) ∨
     (∃ e, r = .err e ∧ Extracted.Parser.parse_u32 fuel p = .ok (.error (ofError e))) := by
-  rw [Parser.parse_u32_eq fuel p hoff (valid_lt_256 hv) hf]
+  rw [Parser.parse_u32_eq fuel p hoff (pi_valid_lt_256 hv) hf]
   exact parseInt_resOf_ok natVal p false 32 hv fun n hn => natVal_some n (hn rfl)
 
 theorem Parser.parse_i64_ok (fuel : Nat) (p : Parser)
@@ -961,7 +961,7 @@ theorem Parser.parse_i64_ok (fuel : Nat) (p : Parser)
     let r := Konst.Parser.parseInt (toParser p) true 64
     (∃ q v t, r = .ok q v ∧ intVal v = some t ∧ Extracted.Parser.parse_i64 fuel p = .ok (.ok (t, ofParser q))) ∨
     (∃ e, r = .err e ∧ Extracted.Parser.parse_i64 fuel p = .ok (.error (ofError e))) := by
-  rw [Parser.parse_i64_eq fuel p hoff (valid_lt_256 hv) hf]
+  rw [Parser.parse_i64_eq fuel p hoff (pi_valid_lt_256 hv) hf]
   exact parseInt_resOf_ok intVal p true 64 hv fun n _ => intVal_some n
 
 theorem Parser.parse_u128_ok (fuel : Nat) (p : Parser)
@@ -970,7 +970,7 @@ theorem Parser.parse_u128_ok (fuel : Nat) (p : Parser)
     let r := Konst.Parser.parseInt (toParser p) false 128
     (∃ q v t, r = .ok q v ∧ natVal v = some t ∧ Extracted.Parser.parse_u128 fuel p = .ok (.ok (t, ofParser q))) ∨
     (∃ e, r = .err e ∧ Extracted.Parser.parse_u128 fuel p = .ok (.error (ofError e))) := by
-  rw [Parser.parse_u128_eq fuel p hoff (valid_lt_256 hv) hf]
+  rw [Parser.parse_u128_eq fuel p hoff (pi_valid_lt_256 hv) hf]
   exact parseInt_resOf_ok natVal p false 128 hv fun n hn => natVal_some n (hn rfl)
 
 theorem Parser.parse_i128_ok (fuel : Nat) (p : Parser)
@@ -979,7 +979,7 @@ theorem Parser.parse_i128_ok (fuel : Nat) (p : Parser)
     let r := Konst.Parser.parseInt (toParser p) true 128
     (∃ q v t, r = .ok q v ∧ intVal v = some t ∧ Extracted.Parser.parse_i128 fuel p = .ok (.ok (t, ofParser q))) ∨
     (∃ e, r = .err e ∧ Extracted.Parser.parse_i128 fuel p = .ok (.error (ofError e))) := by
-  rw [Parser.parse_i128_eq fuel p hoff (valid_lt_256 hv) hf]
+  rw [Parser.parse_i128_eq fuel p hoff (pi_valid_lt_256 hv) hf]
   exact parseInt_resOf_ok intVal p true 128 hv fun n _ => intVal_some n
 
 theorem Parser.parse_usize_ok (fuel : Nat) (p : Parser)
@@ -988,7 +988,7 @@ theorem Parser.parse_usize_ok (fuel : Nat) (p : Parser)
     let r := Konst.Parser.parseInt (toParser p) false 64
     (∃ q v t, r = .ok q v ∧ natVal v = some t ∧ Extracted.Parser.parse_usize fuel p = .ok (.ok (t, ofParser q))) ∨
     (∃ e, r = .err e ∧ Extracted.Parser.parse_usize fuel p = .ok (.error (ofError e))) := by
-  rw [Parser.parse_usize_eq fuel p hoff (valid_lt_256 hv) hf]
+  rw [Parser.parse_usize_eq fuel p hoff (pi_valid_lt_256 hv) hf]
   exact parseInt_resOf_ok natVal p false 64 hv fun n hn => natVal_some n (hn rfl)
 
 theorem Parser.parse_bool_ok (p : Parser)
@@ -996,7 +996,7 @@ theorem Parser.parse_bool_ok (p : Parser)
     let r := Konst.Parser.parseBool (toParser p)
     (∃ q v t, r = .ok q v ∧ boolVal v = some t ∧ Extracted.Parser.parse_bool p = .ok (.ok (t, ofParser q))) ∨
     (∃ e, r = .err e ∧ Extracted.Parser.parse_bool p = .ok (.error (ofError e))) := by
-  rw [Parser.parse_bool_eq p hoff (valid_lt_256 hv)]
+  rw [Parser.parse_bool_eq p hoff (pi_valid_lt_256 hv)]
   refine resOf_ok_of boolVal _ (parseBool_ne_panic _ hv) ?_
   intro q v h
   obtain ⟨b, rfl⟩ := parseBool_value _ q v h
